@@ -2,5 +2,8 @@ SPECIFICATION Spec
 CONSTANTS
   MaxDepth = 6
   Msgs = {"a", "b"}
-INVARIANTS NilStaysNil TextLen Emit
+  Reps = {1}
+  MaxTotal = 6
+  CauseLimit = 0
+INVARIANTS NilStaysNil CauseIsRoot TextLen Emit
 CHECK_DEADLOCK FALSE
